@@ -111,7 +111,7 @@ theorem C12_stored_extract_beyond (files : Files) (fname : String) (bytes : Byte
     exact ⟨_, _, rfl⟩
   · simp only [ho, ↓reduceIte]
     by_cases hskip : o ≤ (plainOf pre).length
-    · obtain ⟨ds1, blks1, e1, inv1, hdec1, _, hn1, hs1⟩ := runPhase_stored files _ { folder := key, offset := 0, dec := some (.none p.bufSize .ok), feeder := fd0 }
+    · obtain ⟨ds1, blks1, e1, inv1, hdec1, _, hn1, hs1, _⟩ := runPhase_stored files _ { folder := key, offset := 0, dec := some (.none p.bufSize .ok), feeder := fd0 }
         p.bufSize hbs pre (plainOf pre) inv0 o hskip
       rw [e1]
       simp only [ne_eq, not_true_eq_false, ↓reduceIte, hdec1]
